@@ -8,7 +8,7 @@
  "name": "io_channel_wrappers",
  "props": ["C17"],
  "level": "U",
- "tier": "wip",
+ "tier": "quick",
  "harness": "h_wrappers",
  "enforce": ["io_channel_read_blk64", "io_channel_write_blk64", "io_channel_write_byte", "io_channel_discard", "io_channel_zeroout", "io_channel_cache_readahead"],
  "unwind": 12,
